@@ -39,7 +39,11 @@ RULE = ('every set partition of n<=5 nodes (n<=6 thorough), written with restric
         'the 1-D value; a quarter of the base cases), partition_distance gets all nine layout pairs of {1-D, 1xN, Nx1} (every pair must return the 1-D result; Nx1 '
         'paired with 1-D or 1xN under the key partition_distance:mixed-layout, ordinary clause since the repair /repo 903f1ee) on 20 % of its pairs; gateway_coef_sign with both centrality '
         'types; ls2ci on shuffled block lists (with an empty block) and the empty / IndexError cases, its zeroindexed flag spelled True / 1 / np.True_ and False / 0 / np.False_ in rotation; agreement with buffsz that splits the stack '
-        'unevenly; partition_distance with 1100 blocks. non-trivial = at least two blocks and a relabelling that changes a label; '
+        'unevenly; partition_distance with 1100 blocks; LABEL STORAGE TYPES: every consumer gets the base partition (participation_coef(_sign), module_degree_zscore, diversity_coef_sign, modularity_und / _dir / _und_sign with the '
+        'partition given; partition_distance on 30 % of its pairs - both vectors, cx only, cy only; agreement on 40 % of its stacks) as a boolean mask in both polarities (K <= 2), uint8 / int8 / uint16 labels at the top of their range '
+        '(255-K+1..255: `+ 1` in the caller\'s dtype wraps), uint8 in a non-monotone assignment, uint64 beyond 2^63, unicode / bytes / object-array strings, a Python list of strings, Python ints in an object array (bool always, three of the others drawn per call): '
+        'the value must be that of the same partition with int64 labels 1..K (key <consumer>:label-dtype) and the vector must come back unchanged; a consumer may refuse (raise) only what /repo HEAD refuses - table HEAD_REFUSES: '
+        'modularity_und / modularity_dir with kci as bool or strings, nothing else - counted under label-dtype-refused:*. non-trivial = at least two blocks and a relabelling that changes a label; '
         'distinct by hash of (function, matrix, labels)')
 ASSUMES = ['weights are small dyadic rationals: the sums the model treats as exact are exact in binary64; quotients, sqrt and '
            'log are compared with relative tolerance 1e-9',
@@ -308,6 +312,61 @@ def repaired_gateway(bct, fname='gateway_coef_sign', diff_file='gateway_coef_sig
         return None
 
 
+# ---------------------------------------------------------------- label vectors in other storage types
+# What /repo HEAD (903f1ee) does with a label vector that is not an integer array, probed per consumer: modularity_und / modularity_dir
+# with a given partition raise on a boolean kci (TypeError) and on string / bytes labels (UFuncTypeError / TypeError) - `ci += 1` style
+# arithmetic on the caller's labels; EVERY other (consumer, storage type) pair below returns the value of the same partition written
+# with int64 labels 1..K.  A consumer may refuse (raise) only what is listed here; whatever it returns must be that value.
+NON_NUMERIC = ('bool', 'bool-inverted', 'str', 'str-list', 'object-str', 'bytes')
+HEAD_REFUSES = {'modularity_und': NON_NUMERIC, 'modularity_dir': NON_NUMERIC}
+STR_POOL = ['L', 'R', 'dmn', 'vis', 'Z9', 'a', 'bb', 'c c', 'left', 'right', '10', '9']
+U8_POOL = [255, 0, 254, 128, 1, 127, 200, 17]
+
+
+def canon(ci):
+    first = {}
+    return [first.setdefault(x, len(first) + 1) for x in ci]
+
+
+def label_dtypes(base, rng, two_d=False):
+    """name -> the partition `base` (labels 1..K) as a label vector of another storage type: boolean mask (K <= 2, both polarities),
+    small integers at the top of their range (uint8 255-K+1..255, int8, uint16: `+ 1` on the caller's dtype wraps), uint8 in a
+    non-monotone assignment, uint64 beyond 2^63, unicode / bytes / object strings, Python ints in an object array"""
+    b = [int(x) for x in base]
+    K = max(b)
+    out = {}
+    if K <= 2:
+        out['bool'] = np.array([x == 2 for x in b], dtype=bool)
+        out['bool-inverted'] = np.array([x == 1 for x in b], dtype=bool)
+    if K <= 200:
+        out['uint8-hi'] = np.array([255 - K + x for x in b], dtype=np.uint8)
+        out['int8-hi'] = np.array([127 - K + x for x in b], dtype=np.int8)
+    if K <= 60000:
+        out['uint16-hi'] = np.array([65535 - K + x for x in b], dtype=np.uint16)
+    out['uint64'] = np.array([2 ** 63 + 5 * x for x in b], dtype=np.uint64)
+    if K <= len(U8_POOL):
+        u8 = rng.sample(U8_POOL, K)
+        out['uint8-mix'] = np.array([u8[x - 1] for x in b], dtype=np.uint8)
+    if K <= len(STR_POOL):
+        st = rng.sample(STR_POOL, K)
+        out['str'] = np.array([st[x - 1] for x in b])
+        out['object-str'] = np.array([st[x - 1] for x in b], dtype=object)
+        out['bytes'] = np.array([st[x - 1].encode() for x in b])
+        if not two_d:
+            out['str-list'] = [st[x - 1] for x in b]
+    out['object-int'] = np.array([7 * x - 3 for x in b], dtype=object)
+    return out
+
+
+def pick_dtypes(dts, rng, k):
+    rest = sorted(d for d in dts if not d.startswith('bool'))
+    return [d for d in ('bool', 'bool-inverted') if d in dts] + rng.sample(rest, min(k, len(rest)))
+
+
+def as_given(alt):
+    return [str(x) for x in (alt if isinstance(alt, list) else np.asarray(alt).ravel().tolist())]
+
+
 ZI_ROT = [0]
 
 
@@ -404,6 +463,30 @@ def run(ctx):
                         ok2 = close(np.ravel(np.asarray(out_2d, dtype=float)), np.ravel(np.asarray(out, dtype=float))) if not isinstance(out, tuple) else \
                             (isinstance(out_2d, tuple) and len(out_2d) == len(out) and all(close(np.ravel(np.asarray(x, dtype=float)), np.ravel(np.asarray(y, dtype=float))) for x, y in zip(out_2d, out)))
                         ctx.check(ok2, key0 + ':label-container', 'result differs when the labels come as a %s array: %s vs %s' % (nm2, tolist(out_2d), tolist(out)), dict(case, container=nm2))
+                    # the label vector in another STORAGE TYPE (boolean mask, small unsigned / signed integers at the top of their range,
+                    # uint64, strings, object arrays): the value of the partition; only what HEAD refuses may be refused (HEAD_REFUSES)
+                    dts = label_dtypes(labels, ctx.rng)
+                    for dn in pick_dtypes(dts, ctx.rng, 3):
+                        alt = dts[dn]
+                        alt0 = list(alt) if isinstance(alt, list) else alt.copy()
+                        dcase = dict(case, label_dtype=dn, ci_as_given=as_given(alt))
+                        ctx.count('label-dtype:' + dn)
+                        try:
+                            with no_variants():
+                                out_dt = call(f, alt, _t=3.0)
+                        except Exception as e:
+                            if dn in HEAD_REFUSES.get(key0, ()):
+                                ctx.count('label-dtype-refused:%s:%s' % (key0, dn))
+                            else:
+                                ctx.fail(key0 + ':label-dtype', 'raised %r when the labels come as %s %s (accepted at HEAD; the same partition as int64 1..K gives %s)'
+                                         % (e, dn, dcase['ci_as_given'], tolist(out)), dcase)
+                            continue
+                        if dn in HEAD_REFUSES.get(key0, ()):
+                            ctx.count('label-dtype-accepted-beyond-HEAD:%s:%s' % (key0, dn))
+                        ctx.check(close(out_dt, out), key0 + ':label-dtype', 'the same partition with labels stored as %s %s gives %s, with int64 labels 1..K %s'
+                                  % (dn, dcase['ci_as_given'], tolist(out_dt), tolist(out)), dcase)
+                        same = (alt == alt0) if isinstance(alt, list) else (alt.dtype == alt0.dtype and np.array_equal(alt, alt0))
+                        ctx.check(same, key0 + ':pure', 'the label vector (%s) was modified in place' % dn, dcase)
                     want = orc(labels)
                     if fname == 'diversity_coef_sign' and K == 1:
                         pass            # log(1) = 0 in the denominator: undefined for a single module
@@ -651,6 +734,23 @@ def run(ctx):
                     ctx.check(close(alt, (vin, mi)), 'partition_distance:label-container', 'result differs when the labels come as %s: %r' % (an, tolist(alt)), dict(case, container=an))
                 except Exception as e:
                     ctx.fail('partition_distance:label-container', 'raised %r when the labels come as %s' % (e, an), dict(case, container=an))
+        # storage types of the label vectors (boolean masks, small integers at the top of their range, uint64, strings, object arrays): both in
+        # the same type, and one of them against int64
+        if n >= 2 and ctx.rng.random() < 0.3:
+            dx, dy = label_dtypes(canon(cx), ctx.rng), label_dtypes(canon(cy), ctx.rng)
+            for dn in pick_dtypes(dx, ctx.rng, 3):
+                for who, (gx, gy) in (('both', (dx[dn], dy.get(dn))), ('cx only', (dx[dn], ay.copy())), ('cy only', (ax.copy(), dy.get(dn)))):
+                    if gx is None or gy is None:
+                        continue
+                    dcase = dict(case, label_dtype=dn, which=who, cx_as_given=as_given(gx), cy_as_given=as_given(gy))
+                    ctx.count('partition_distance:label-dtype:' + dn)
+                    try:
+                        with no_variants():
+                            alt = call(bct.partition_distance, gx, gy)
+                        ctx.check(close([float(alt[0]), float(alt[1])], [vin, mi]), 'partition_distance:label-dtype',
+                                  'labels stored as %s (%s): cx=%s cy=%s give %s, int64 labels give (%r, %r)' % (dn, who, dcase['cx_as_given'], dcase['cy_as_given'], tolist(alt), vin, mi), dcase)
+                    except Exception as e:
+                        ctx.fail('partition_distance:label-dtype', 'raised %r when the labels come as %s (%s); accepted at HEAD' % (e, dn, who), dcase)
         # layouts of the label vectors: N x 1 (as documented), 1 x N (what scipy.io.loadmat gives for a MATLAB row vector), 1-D.  The node
         # count is the number of LABELS and the two vectors are paired node by node, whatever their shapes: all nine layout pairs (1-D / 1-D is
         # the call above) must return the 1-D result.  Regression clause for /repo 903f1ee: before it N x 1 paired with 1-D / 1 x N was
@@ -692,6 +792,21 @@ def run(ctx):
             ctx.fail('agreement:raises', 'raised %r' % (e,), case); return None
         want = [[0 if i == j else sum(1 for c in cols if c[i] == c[j]) for j in range(n)] for i in range(n)]
         ctx.check(np.array_equal(np.asarray(D), np.array(want).reshape(n, n)), 'agreement:formula', 'D[i,j] is not the number of partitions that put i and j together', case)
+        # the stack in another storage type (every column the same partition as before): boolean (all columns <= 2 blocks), small integers at the
+        # top of their range, uint64, strings, object arrays
+        if ctx.rng.random() < 0.4:
+            per = [label_dtypes(canon(c), ctx.rng, two_d=True) for c in cols]
+            for dn in pick_dtypes({d: 1 for d in per[0] if all(d in q for q in per)}, ctx.rng, 3):
+                cd = np.array([q[dn] for q in per]).T
+                dcase = dict(case, label_dtype=dn, stack_as_given=[as_given(cd[:, t]) for t in range(m)])
+                ctx.count('agreement:label-dtype:' + dn)
+                try:
+                    with no_variants():
+                        Dd = call(bct.agreement, cd)
+                    ctx.check(np.array_equal(np.asarray(Dd), np.asarray(D)), 'agreement:label-dtype', 'the stack stored as %s (%s) gives another matrix: %s vs %s'
+                              % (dn, cd.dtype, tolist(Dd), tolist(D)), dcase)
+                except Exception as e:
+                    ctx.fail('agreement:label-dtype', 'raised %r when the stack comes as %s (%s); accepted at HEAD' % (e, dn, cd.dtype), dcase)
         # buffsz: 1, and values that split the stack unevenly (last block shorter), = m, > m
         bs = sorted(set([1] + [b for b in buffs if b >= 1])) if m >= 2 else []
         for B in bs:
